@@ -56,11 +56,11 @@ CHECKS = {
                 text='Liveness is restated as bounded progress: every operation must finish within 2*len(A)+64*(members+1)+4*bytes_out+256 stream callbacks, deliver no more than the declared length, and keep peak library heap below 8 MiB + 2*len(A); checked on every truncation offset of generated archives, extreme length declarations, inputs around the 256 KiB scan limit, self-referential and pm1-endless streams, over 4 stream kinds x 4 operations and the CLI over files and pipes.',
                 note='No finite run decides "eventually returns"; the CLI is guarded by watchdogs and a bound on bytes of messages. A watchdog firing is re-run once before it is reported; members that really produce more than 64 MiB are abandoned at that cap (work proportional so far) and CLI watchdogs on such inputs are inconclusive.',
                 design='4/C13'),
-    'C14': dict(level='exploration', technique='runtime monitor of the decoder API contract: split-invariance against a single maximal read, independent bitwise CRC, progress-callback sequence checker; exhaustive read compositions for short outputs',
+    'C14': dict(level='exploration', technique='runtime monitor of the decoder API contract: split-invariance against a single maximal read, independent bitwise CRC, progress-callback sequence checker; exhaustive read compositions for short outputs; uninitialised-memory differential (same cases decoded with stack and fresh heap blocks pre-filled with two different bytes)',
                 text='For every (method, stream, declared length) the bytes, reported length/CRC and callback sequence under many read schedules (all 2^(n-1) compositions for short outputs) are compared with one maximal read and an independent CRC.',
                 note='Input callback delivers full requests while data remains. Schedules sampled for long outputs.',
                 design='4/C14'),
-    'C15': dict(level='exploration', technique='history checker against an executable sequential model of the reader (exhaustive legal op sequences to a depth bound), two-reader interleaving enumeration, ThreadSanitizer rounds with per-thread result equality',
+    'C15': dict(level='exploration', technique='history checker against an executable sequential model of the reader (exhaustive legal op sequences to a depth bound), two-reader interleaving enumeration, ThreadSanitizer rounds with per-thread result equality; metamorphic cut-member monitor (a member whose data stops inside a command must yield the same bytes after every history, each in its own process, and under two pre-fills of uninitialised memory)',
                 text='All legal operation sequences up to depth 5 (quick) / 7 (thorough) over three fixed archives x three directory policies plus random histories on generated archives are stepped beside a model of the documented reader behaviour (fake directories, deferred symlinks, sticky end); all interleavings of two short histories on two readers and 8 threads x N rounds under TSan must reproduce each reader\'s solo log.',
                 note='TSan sees only instrumented code: reports whose racing access lies inside libc (mktime/tzset internal lock) are counted and ignored. Depth-bounded.',
                 design='4/C15'),
